@@ -111,6 +111,7 @@ type caseT struct {
 	Doc      []objT `json:"doc"`
 	Args     argsT  `json:"args"`
 	Prev     *prevT `json:"prev"`
+	Schema   string `json:"schema"` // vector of a used directory: "untouched" | "replaced" ("written": fresh)
 	Shape    string `json:"shape"`
 	Sat      *bool  `json:"sat"`
 	Exp      *expT  `json:"exp"`
@@ -1053,6 +1054,7 @@ func (r *resT) miss(class, detail string, c inputT, info map[string]any, drift b
 		// a run over the output file an earlier run has left: another defect class than the same
 		// outcome in a fresh directory
 		sig["op"] = "run_over_existing"
+		sig["schema"] = c.schema
 		cs["op"] = "seq"
 		cs["prev"] = c.prev
 		info["earlier_run"] = map[string]any{"doc_objects": len(c.prev.Doc), "args": c.prev.Args}
@@ -1071,6 +1073,10 @@ type inputT struct {
 	exp   *expT
 	inp   string
 	prev  *prevT // seq: the input run before in the same directory
+	// seq: what became of the schema file between the two runs: "untouched" (the same document,
+	// only the arguments differ) or "replaced"; wantSchema is the specification's word for it
+	schema     string
+	wantSchema string
 }
 
 func satisfiable(doc []objT, args argsT) bool {
@@ -1107,14 +1113,9 @@ func runInput(c inputT, r *resT) *runObs {
 	if err := checkRender(c.doc, text); err != nil {
 		panic("rendering: " + err.Error())
 	}
-	dir, err := os.MkdirTemp(*workDir, "cg-")
-	if err != nil {
-		panic("temp dir: " + err.Error())
-	}
-	defer os.RemoveAll(dir)
-	if err := os.WriteFile(filepath.Join(dir, "schema_input.yaml"), []byte(text), 0o644); err != nil {
-		panic("write input: " + err.Error())
-	}
+	w := newWorkdir()
+	defer w.close()
+	w.put(c)
 	var first *runObs
 	variants := map[string]bool{}
 	logged := map[string]bool{}
@@ -1136,7 +1137,7 @@ func runInput(c inputT, r *resT) *runObs {
 			break
 		}
 		keep := k%2 == 1 && prevClean && first != nil
-		o := runOnce(dir, c.args, keep)
+		o := w.run(c.args, keep)
 		prevClean = o.clean()
 		assignKeys(o.Structs, c.doc)
 		r.Evals++
@@ -1148,6 +1149,7 @@ func runInput(c inputT, r *resT) *runObs {
 			rel = "over_own_output"
 			cc := c
 			cc.prev = &prevT{Doc: c.doc, Args: c.args}
+			cc.schema = "untouched"
 			if oc := judgeOver(cc, &o, first, rel, string(first.Bytes), r); oc != "ok" {
 				failures++
 				outcome = oc
@@ -1288,22 +1290,83 @@ func judgeOver(c inputT, o, ref *runObs, rel, found string, r *resT) string {
 	return "ok"
 }
 
-func writeInput(dir string, c inputT) {
-	text := render(c.doc, c.style)
-	if err := checkRender(c.doc, text); err != nil {
-		panic("rendering: " + err.Error())
-	}
-	if err := os.WriteFile(filepath.Join(dir, "schema_input.yaml"), []byte(text), 0o644); err != nil {
-		panic("write input: " + err.Error())
-	}
-}
-
 func tempDir() string {
 	dir, err := os.MkdirTemp(*workDir, "cg-")
 	if err != nil {
 		panic("temp dir: " + err.Error())
 	}
 	return dir
+}
+
+// workdir is one directory the generator runs in.  The schema file is written only when the
+// document changes: between two runs that differ in their arguments only it stays UNTOUCHED, as
+// it does under "go generate" / "ARG=Spec go generate".  The modification times tell the true
+// order of events whatever the granularity of the file system's clock:
+//   - a schema file written into a directory without output is old (10 s in the past);
+//   - a schema file replaced while an output exists is strictly newer than that output;
+//   - an output (re)generated by a run that finished normally after the schema file was last
+//     written is strictly newer than the schema file (the schema file is moved into the past).
+type workdir struct {
+	dir  string
+	text string // what schema_input.yaml holds ("": not written yet)
+	ran  bool   // a run has finished normally since the schema file was last written
+}
+
+func newWorkdir() *workdir            { return &workdir{dir: tempDir()} }
+func (w *workdir) close()             { os.RemoveAll(w.dir) }
+func (w *workdir) schemaPath() string { return filepath.Join(w.dir, "schema_input.yaml") }
+func (w *workdir) outPath() string    { return filepath.Join(w.dir, "typedef_output.go") }
+
+func setMtime(path string, t time.Time) {
+	if err := os.Chtimes(path, t, t); err != nil {
+		panic("chtimes: " + err.Error())
+	}
+}
+
+// put makes schema_input.yaml hold the document of c; it returns "untouched" when the file holds
+// it already (and is left alone), "written" / "replaced" otherwise.
+func (w *workdir) put(c inputT) string {
+	text := render(c.doc, c.style)
+	if err := checkRender(c.doc, text); err != nil {
+		panic("rendering: " + err.Error())
+	}
+	if w.text == text {
+		return "untouched"
+	}
+	what := "written"
+	if w.text != "" {
+		what = "replaced"
+	}
+	if err := os.WriteFile(w.schemaPath(), []byte(text), 0o644); err != nil {
+		panic("write input: " + err.Error())
+	}
+	w.text, w.ran = text, false
+	in, err := os.Stat(w.schemaPath())
+	if err != nil {
+		panic("stat input: " + err.Error())
+	}
+	if out, err := os.Stat(w.outPath()); err != nil {
+		setMtime(w.schemaPath(), time.Now().Add(-10*time.Second))
+	} else if !in.ModTime().After(out.ModTime()) {
+		setMtime(w.schemaPath(), out.ModTime().Add(10*time.Millisecond))
+	}
+	return what
+}
+
+// run runs the generator (keep: the output file is left where it is, see runOnce).
+func (w *workdir) run(args argsT, keep bool) runObs {
+	if keep && w.ran {
+		in, ierr := os.Stat(w.schemaPath())
+		out, oerr := os.Stat(w.outPath())
+		if ierr == nil && oerr == nil && !out.ModTime().After(in.ModTime()) {
+			setMtime(w.schemaPath(), out.ModTime().Add(-time.Second))
+		}
+	}
+	o := runOnce(w.dir, args, keep)
+	if !o.Hang && !o.Panic && o.Exit == 0 && o.HasOut {
+		w.ran = true
+	}
+	return o
 }
 
 func prevKind(c inputT) string {
@@ -1314,68 +1377,73 @@ func prevKind(c inputT) string {
 }
 
 // runSeq: in a new directory the generator runs on c.prev, then - the output file left in place,
-// the schema file replaced - on c; the reference is a run of c in another new directory.
+// the schema file replaced if the document is another one and UNTOUCHED if only the arguments
+// differ - on c; the reference is a run of c in another new directory.
 func runSeq(c inputT, r *resT) {
 	if r.Over == nil {
 		r.Over = map[string]int{}
 	}
-	key := func(rel, outcome string) {
-		r.Keys = append(r.Keys, fmt.Sprintf("over/%s/%s/%s/%s/%s/%s/%s", docKey(c.doc), nameKind(c.doc), c.args.Form,
-			ignKind(c.doc, c.args), prevKind(c), rel, outcome))
+	key := func(schema, rel, outcome string) {
+		r.Keys = append(r.Keys, fmt.Sprintf("over/%s/%s/%s/%s/%s/schema_%s/%s/%s", docKey(c.doc), nameKind(c.doc), c.args.Form,
+			ignKind(c.doc, c.args), prevKind(c), schema, rel, outcome))
 	}
-	used := tempDir()
-	defer os.RemoveAll(used)
+	used := newWorkdir()
+	defer used.close()
 	p := inputT{op: "seq", doc: c.prev.Doc, args: c.prev.Args, style: c.style}
-	writeInput(used, p)
-	po := runOnce(used, p.args, false)
+	used.put(p)
+	po := used.run(p.args, false)
 	r.Evals++
 	if po.Hang || po.Panic || po.Exit != 0 || !po.HasOut {
 		// the earlier run's own failure is the finding of its own vector; there is no used directory to test
 		r.OverSkipped++
-		key("-", "earlier_run_failed")
+		key("-", "-", "earlier_run_failed")
 		return
 	}
-	writeInput(used, c)
-	o := runOnce(used, c.args, true)
+	c.schema = used.put(c)
+	if c.wantSchema != "" && c.wantSchema != c.schema {
+		panic(fmt.Sprintf("the specification has the schema file %s, the rendered documents make it %s", c.wantSchema, c.schema))
+	}
+	o := used.run(c.args, true)
 	r.Evals++
-	fresh := tempDir()
-	defer os.RemoveAll(fresh)
-	writeInput(fresh, c)
-	ref := runOnce(fresh, c.args, false)
+	fresh := newWorkdir()
+	defer fresh.close()
+	fresh.put(c)
+	ref := fresh.run(c.args, false)
 	r.Evals++
 	if !ref.clean() {
 		r.OverSkipped++ // the plain vector of this input reports it
-		key("-", "fresh_run_failed")
+		key(c.schema, "-", "fresh_run_failed")
 		return
 	}
 	assignKeys(o.Structs, c.doc)
 	assignKeys(ref.Structs, c.doc)
 	rel := relOf(len(po.Bytes), len(ref.Bytes))
 	r.Over[rel]++
+	r.Over["schema_"+c.schema]++
 	outcome := judgeOver(c, &o, &ref, rel, string(po.Bytes), r)
 	if c.exp == nil && o.clean() {
 		// explicit pair: the structure verdict is CodegenTrace's (both observations are of one input)
 		ln := traceLine(c, 1, rel, &o)
 		ln["prev"] = c.prev
+		ln["schema"] = c.schema
 		r.Trace = append(r.Trace, traceLine(c, 0, "fresh", &ref), ln)
 	}
-	key(rel, outcome)
+	key(c.schema, rel, outcome)
 }
 
-// runSession runs the steps one after the other in ONE directory (the schema file replaced, the
-// output file left in place) and compares each with fresh[step.inp], the clean observation of the
-// same input in a fresh directory.
+// runSession runs the steps one after the other in ONE directory (the output file left in place;
+// the schema file replaced when the document changes, untouched when only the arguments do) and
+// compares each with fresh[step.inp], the clean observation of the same input in a fresh directory.
 func runSession(steps []inputT, fresh map[string]*runObs, r *resT) {
 	if r.Over == nil {
 		r.Over = map[string]int{}
 	}
-	dir := tempDir()
-	defer os.RemoveAll(dir)
-	outPath := filepath.Join(dir, "typedef_output.go")
+	w := newWorkdir()
+	defer w.close()
 	for k, c := range steps {
-		found, ferr := os.ReadFile(outPath)
-		writeInput(dir, c)
-		o := runOnce(dir, c.args, true)
+		found, ferr := os.ReadFile(w.outPath())
+		c.schema = w.put(c)
+		o := w.run(c.args, true)
 		r.Evals++
 		ref := fresh[c.inp]
 		if ferr != nil || ref == nil || k == 0 {
@@ -1384,16 +1452,18 @@ func runSession(steps []inputT, fresh map[string]*runObs, r *resT) {
 		assignKeys(o.Structs, c.doc)
 		rel := relOf(len(found), len(ref.Bytes))
 		r.Over[rel]++
+		r.Over["schema_"+c.schema]++
 		c.prev = &prevT{Doc: steps[k-1].doc, Args: steps[k-1].args}
 		outcome := judgeOver(c, &o, ref, rel, string(found), r)
 		if o.clean() && o.Hash != ref.Hash {
 			// bytes not seen before for this input: logged for CodegenTrace (which knows the fresh run)
 			ln := traceLine(c, 1000+k, rel, &o)
 			ln["prev"] = c.prev
+			ln["schema"] = c.schema
 			r.Trace = append(r.Trace, ln)
 		}
-		r.Keys = append(r.Keys, fmt.Sprintf("over/%s/%s/%s/%s/%s/%s/%s", docKey(c.doc), nameKind(c.doc), c.args.Form,
-			ignKind(c.doc, c.args), prevKind(c), rel, outcome))
+		r.Keys = append(r.Keys, fmt.Sprintf("over/%s/%s/%s/%s/%s/schema_%s/%s/%s", docKey(c.doc), nameKind(c.doc), c.args.Form,
+			ignKind(c.doc, c.args), prevKind(c), c.schema, rel, outcome))
 	}
 }
 
@@ -1798,7 +1868,7 @@ func handle(raw json.RawMessage) any {
 				r.BindError = "unknown argument form of the earlier run: " + c.Prev.Args.Form
 				return r
 			}
-			in.op, in.prev = "seq", c.Prev
+			in.op, in.prev, in.wantSchema = "seq", c.Prev, c.Schema
 			runSeq(in, r)
 			return r
 		}
